@@ -30,6 +30,13 @@ of these encodings replace the honest group; the MITM answers GEX_INIT with f = 
 signs the RFC 4419 hash of what the client was shown), so that only the client's size check stands between an
 out-of-range modulus and NEWKEYS, whatever its encoding; in-range sizes are the control (must be accepted for the
 out-of-range verdicts to mean anything; counted).
+Request style of the group exchange (RFC 4419 has two): besides SSH_MSG_KEX_DH_GEX_REQUEST (min, n, max) the client
+opens the exchange with the OLD-style SSH_MSG_KEX_DH_GEX_REQUEST_OLD (n only; different exchange hash) - case field
+"req": "old". paramiko's server answers old-style requests of real clients; paramiko's client engine has the old-style
+request behind `start_kex(_test_old_style=True)`, which the harness reaches through a subclass of the engine registered
+on that one client Transport (no such switch in the tree = inconclusive, not a harness error). e / f boundary values
+(both roles), every modulus size (lying server, encodings rotating) and three honest-server sizes are run that way;
+the MITM's forged replies use the old-style hash then.
 Oracle: value outside [1, p-1] / malformed or off-curve point / all-zero X25519 result / wrong X25519
 length / gex p outside 1024..8192 bits  =>  the tested side's handshake fails: it never sends NEWKEYS,
 never sets initial_kex_done, start_client / the server's negotiation ends with an error.
@@ -48,7 +55,10 @@ RULE = (
     "small-order and wrong-length X25519 strings / gex modulus sizes 512..16384) enumerated completely; DH e/f and gex p/g also in "
     "non-canonical mpint encodings (redundant sign-extension bytes 1..len(p)+1, padded to the encoded length of an in-range value, "
     "leading 00 stripped; quick: every encoding for 0, the stripped form for p-2..p+1, one rotating padding per other boundary value; gex group through a lying "
-    "MITM server so that the encoding is under control), plus hypothesis-drawn "
+    "MITM server so that the encoding is under control); group exchange also opened with the old-style request (RFC 4419 5, "
+    "GEX_REQUEST_OLD; classes gex-request:old, <role>:gex-value:old-request, gex-group:<in|out-of>-range:old-request): the 12 e/f "
+    "boundary values for both roles, every modulus size from the lying server, three from an honest server, one in three of the drawn "
+    "gex cases; plus hypothesis-drawn "
     "random out-of-range integers (x drawn encoding), off-curve coordinates and byte strings. non-trivial = value outside the accepted domain "
     "(reference classification in the harness); distinct by full case"
 )
@@ -310,10 +320,43 @@ def _only_kex(kex):
     return {"disabled_algorithms": {"kex": mitm.only(mitm.ALL_KEX, kex), "keys": mitm.only(["ssh-ed25519", "ecdsa-sha2-nistp256", "ecdsa-sha2-nistp384", "ecdsa-sha2-nistp521", "rsa-sha2-512", "rsa-sha2-256", "ssh-rsa"], "ssh-ed25519")}}
 
 
-def _session(kex, pack_entries, cb):
+class OldRequestUnavailable(Exception):
+    pass
+
+
+def _old_request_engine(tc, kex):
+    """Make the client Transport `tc` open its group exchange with the old-style request (RFC 4419 5,
+    SSH_MSG_KEX_DH_GEX_REQUEST_OLD: only the preferred size, no range). paramiko's engine can do that
+    (`start_kex(_test_old_style=True)`); a Transport never asks for it by itself, so the harness registers a
+    subclass of the engine that does. Raises OldRequestUnavailable when the tree has no such switch."""
+    import inspect
+
+    table = getattr(tc, "_kex_info", None)
+    cls = table.get(kex) if isinstance(table, dict) else None
+    if cls is None or "_test_old_style" not in inspect.signature(cls.start_kex).parameters:
+        raise OldRequestUnavailable(kex)
+
+    class OldRequest(cls):
+        def start_kex(self):
+            if self.transport.server_mode:
+                return cls.start_kex(self)
+            return cls.start_kex(self, _test_old_style=True)
+
+    tc._kex_info = dict(table, **{kex: OldRequest})  # instance attribute: this client only
+
+
+def _gex_request_seen(m):
+    """'new' / 'old' / None: which group-exchange request the client put on the wire."""
+    types = m.types("c2s")
+    return "new" if 34 in types else "old" if 30 in types else None
+
+
+def _session(kex, pack_entries, cb, old_request=False):
     """Runs one handshake under a PlainMitm with callback cb. Returns facts about both sides."""
     with mitm.modulus_pack(pack_entries):
         link, tc, ts = peers.make_pair(client_kw=_only_kex(kex), host_keys=(HOSTKEY,))
+        if old_request:
+            _old_request_engine(tc, kex)
         m = mitm.PlainMitm(link)
         cb_errors = []
 
@@ -348,6 +391,8 @@ def _session(kex, pack_entries, cb):
         raise core.HarnessError("PlainMitm could not parse the handshake: %r" % (m.errors,))
     if cb_errors:
         raise core.HarnessError("MITM callback failed: %r" % (cb_errors,))
+    if mitm.kex_family(kex) == "gex" and _gex_request_seen(m) not in (None, "old" if old_request else "new"):
+        raise core.HarnessError("group exchange opened with the %s-style request, the case wants %s" % (_gex_request_seen(m), "old" if old_request else "new"))
     out["mitm"] = m
     return out
 
@@ -363,10 +408,14 @@ def _forge(kex, m, reply_type, fmt, k_s, new_mid_value, K, wire=None, group=None
         e = mitm.unpack(c[30], "m")[1]
         mid = mitm.mid_dh(e, new_mid_value)
     elif fam == "gex":
-        _, mn, n, mx = mitm.unpack(c[34], "uuu")
         p, g = group if group is not None else mitm.unpack(s[31], "mm")[1:]
         e = mitm.unpack(c[32], "m")[1]
-        mid = mitm.mid_gex(mn, n, mx, p, g, e, new_mid_value)
+        if 34 in c:
+            _, mn, n, mx = mitm.unpack(c[34], "uuu")
+            mid = mitm.mid_gex(mn, n, mx, p, g, e, new_mid_value)
+        else:  # old-style request: only n enters the hash (RFC 4419 5)
+            n = mitm.unpack(c[30], "u")[1]
+            mid = R.u32(n) + R.mpint(p) + R.mpint(g) + R.mpint(e) + R.mpint(new_mid_value)
     else:
         q_c = mitm.unpack(c[30], "s")[1]
         mid = mitm.mid_ecdh(q_c, new_mid_value)
@@ -398,7 +447,7 @@ def run_gexwire(ctx, case):
             return [mitm.pack(32, "m", [2])]
         if d != "s2c":
             return None
-        if payload[0] == 31 and not st_["group"] and 34 in m.types("c2s"):
+        if payload[0] == 31 and not st_["group"] and _gex_request_seen(m):
             st_["group"] = 1
             return [R.u8(31) + R.string(pw) + R.string(gw)]
         if payload[0] == 33 and st_["group"] and not st_["reply"] and 32 in m.types("c2s"):
@@ -408,20 +457,28 @@ def run_gexwire(ctx, case):
             return [_forge(kex, m, 33, "sms", k_s, g, lambda e: e % p, group=(p, g))]
         return None
 
-    r = _session(kex, [(2, mitm.group_prime(1024))], cb)
+    old = case.get("req") == "old"
+    try:
+        r = _session(kex, [(2, mitm.group_prime(1024))], cb, old_request=old)
+    except OldRequestUnavailable:
+        ctx.inconc("gex-request:old-style-not-available-in-this-tree")
+        return True
     if not st_["group"]:
         raise core.HarnessError("group never replaced: %r (client=%r server=%r)" % (case, r["ce"], r["se"]))
     cl = ["client", "gex-group", "gex-group:lying-server", "gex-group:out-of-range" if bad else "gex-group:in-range", "kex:" + kex]
+    cl += ["gex-request:" + ("old" if old else "new"), "gex-group:%s:%s-request" % ("out-of-range" if bad else "in-range", "old" if old else "new")]
     cl += ["gex-p-encoding:" + enc_label(p, _enc_for(penc, p)), "gex-g-encoding:" + enc_label(g, genc)]
     ctx.case(case, bad, cl)
     accepted = r["c_done"] or r["c_newkeys"]
     if not bad:
         ctx.count("control:lying-server-in-range-group:" + ("accepted" if accepted else "refused"))
+        if old:
+            ctx.count("control:lying-server-in-range-group:old-request:" + ("accepted" if accepted else "refused"))
         return True
     if accepted:
         ctx.violation(
             "gex-modulus-size",
-            "client:%s-bit-modulus-accepted%s" % ("short" if bits < 1024 else "long", "" if not penc else ":non-canonical-encoding"),
+            "client:%s-bit-modulus-accepted%s%s" % ("short" if bits < 1024 else "long", "" if not penc else ":non-canonical-encoding", ":old-style-request" if old else ""),
             case,
             "p has %d bits, sent as %d octets (%s), g sent as %s; start_client -> %r, client sent %r" % (bits, len(pw), enc_label(p, _enc_for(penc, p)), gw.hex(), r["ce"], r["c_types"]),
         )
@@ -445,10 +502,15 @@ def run_case(ctx, case):
         p = (1 << (bits - 1)) | (spec[3] % (1 << (bits - 1))) | 1
         bad = bits < 1024 or bits > 8192
         gval = {"2": 2, "0": 0, "1": 1, "p-1": p - 1}[g]
-        ctx.case(case, bad, ["client", "gex-group", "gex-group:out-of-range" if bad else "gex-group:in-range", "kex:" + kex])
-        r = _session(kex, [(gval, p)], None)
+        old = case.get("req") == "old"
+        try:
+            r = _session(kex, [(gval, p)], None, old_request=old)
+        except OldRequestUnavailable:
+            ctx.inconc("gex-request:old-style-not-available-in-this-tree")
+            return True
+        ctx.case(case, bad, ["client", "gex-group", "gex-group:out-of-range" if bad else "gex-group:in-range", "kex:" + kex, "gex-request:" + ("old" if old else "new"), "gex-group:%s:%s-request" % ("out-of-range" if bad else "in-range", "old" if old else "new")])
         if bad and (r["c_done"] or r["c_newkeys"]):
-            ctx.violation("gex-modulus-size", "client:%s-bit-modulus-accepted" % ("short" if bits < 1024 else "long"), case, "p has %d bits; start_client -> %r, client sent %r" % (bits, r["ce"], r["c_types"]))
+            ctx.violation("gex-modulus-size", "client:%s-bit-modulus-accepted%s" % ("short" if bits < 1024 else "long", ":old-style-request" if old else ""), case, "p has %d bits; start_client -> %r, client sent %r" % (bits, r["ce"], r["c_types"]))
             return False
         return True
 
@@ -486,7 +548,7 @@ def run_case(ctx, case):
     def cb(m, d, i, payload):
         if applied:
             return None
-        if role == "server" and d == "c2s" and payload[0] == init_type and (fam != "gex" or 34 in m.types("c2s")):
+        if role == "server" and d == "c2s" and payload[0] == init_type and (fam != "gex" or _gex_request_seen(m)):
             applied.append(1)
             if wire is not None:
                 return [R.u8(init_type) + R.string(wire)]
@@ -503,7 +565,12 @@ def run_case(ctx, case):
             return [mitm.pack(reply_type, fmt, [k_s, val, sig])]
         return None
 
-    r = _session(kex, pack, cb)
+    old = fam == "gex" and case.get("req") == "old"
+    try:
+        r = _session(kex, pack, cb, old_request=old)
+    except OldRequestUnavailable:
+        ctx.inconc("gex-request:old-style-not-available-in-this-tree")
+        return True
     if not applied:
         raise core.HarnessError("edit never applied: %r (client=%r server=%r, c2s %r s2c %r)" % (case, r["ce"], r["se"], r["c_types"], r["s_types"]))
     cl = [role, kind, "kex:" + kex, "out-of-domain" if bad else "in-domain"]
@@ -513,6 +580,9 @@ def run_case(ctx, case):
             cl.append("out-of-domain:non-canonical:" + ("zero" if val == 0 else "negative" if val < 0 else "above-p-1"))
     if forged:
         cl.append("lying-server-signed")
+    if fam == "gex":
+        cl.append("gex-request:" + ("old" if old else "new"))
+        cl.append("%s:gex-value:%s-request" % (role, "old" if old else "new"))
     ctx.case(case, bad, cl)
     if not bad:
         if forged and r["ce"] is None:
@@ -525,7 +595,7 @@ def run_case(ctx, case):
         if r["s_newkeys"] or r["s_done"]:
             ctx.violation(
                 "invalid-peer-value-rejected",
-                "server:%s:%s%s" % (fam, _bucket(fam, spec, val), _noncanon(case)),
+                "server:%s:%s%s%s" % (fam, _bucket(fam, spec, val), _noncanon(case), ":old-style-request" if old else ""),
                 case,
                 "server got %s%s; negotiation error %r, initial_kex_done=%s, server sent types %r" % (_show(val), _showwire(wire), r["se"], r["s_done"], r["s_types"]),
             )
@@ -537,7 +607,7 @@ def run_case(ctx, case):
         if r["c_newkeys"] or r["c_done"]:
             ctx.violation(
                 "invalid-peer-value-rejected",
-                "client:%s:%s%s%s" % (fam, _bucket(fam, spec, val), ":signed" if forged else "", _noncanon(case)),
+                "client:%s:%s%s%s%s" % (fam, _bucket(fam, spec, val), ":signed" if forged else "", _noncanon(case), ":old-style-request" if old else ""),
                 case,
                 "client got %s%s (%s); start_client -> %r, initial_kex_done=%s, client sent types %r" % (_show(val), _showwire(wire), "reply re-signed by the host key" if forged else "plain edit", r["ce"], r["c_done"], r["c_types"]),
             )
@@ -628,6 +698,23 @@ def boundary_domain(quick):
         cases.append({"role": "client", "kex": GEX_KEX[i % 2], "value": ["gexsize", bits, "2", 12345 + i]})
     for g in ("0", "1", "p-1"):
         cases.append({"role": "client", "kex": GEX_KEX[0], "value": ["gexsize", 1024, g, 777]})
+    # group exchange opened with the OLD-style request (RFC 4419 5: preferred size only): e / f boundary values for
+    # both roles, every modulus size from the lying server (encoding rotating) and three from an honest server
+    for role in ("client", "server"):
+        for j, spec in enumerate(DH_BOUNDARY):
+            c = {"role": role, "kex": GEX_KEX[j % 2], "value": list(spec), "req": "old"}
+            if j % 3 == 2:
+                c["enc"] = list(DH_ENCODINGS[j % 4])
+            cases.append(c)
+    for i, bits in enumerate(GEX_SIZES):
+        if quick and bits == 8192:
+            continue  # (seconds of modular arithmetic in the accepting control)
+        c = {"role": "client", "kex": GEX_KEX[i % 2], "value": ["gexwire", bits, 777 + i], "req": "old"}
+        if encs[i % len(encs)]:
+            c["enc"] = list(encs[i % len(encs)])
+        cases.append(c)
+    for i, bits in enumerate((768, 1023, 8193)):
+        cases.append({"role": "client", "kex": GEX_KEX[(i + 1) % 2], "value": ["gexsize", bits, "2", 4711 + i], "req": "old"})
     return cases
 
 
@@ -680,11 +767,19 @@ def random_cases():
         lambda t: dict({"role": "client", "kex": GEX_KEX[t[1] % 2], "value": ["gexwire", t[0], t[1]]}, **dict(([("enc", t[2])] if t[2] else []) + ([("genc", t[3])] if t[3] else [])))
     )
     table = [dh] * 3 + [dh_enc] * 3 + [ecs] * 4 + [xs] * 2 + [sizes, sizes_hi, wire, wire]
-    return st.integers(0, len(table) - 1).flatmap(lambda i: table[i])
+
+    def with_request(t):
+        # group exchange: old-style request in one of three cases
+        c, old = t
+        return dict(c, req="old") if old and c["kex"] in GEX_KEX else c
+
+    return st.tuples(st.integers(0, len(table) - 1).flatmap(lambda i: table[i]), st.sampled_from([False, False, True])).map(with_request)
 
 
 def run(ctx):
-    ctx.set_budget(80, 780)
+    # (VERIF_BUDGET_SCALE: validation runs on an oversubscribed machine may stretch the wall-clock safety net; never part of a verdict)
+    _bs = max(1.0, float(__import__("os").environ.get("VERIF_BUDGET_SCALE", "1") or 1))
+    ctx.set_budget(80 * _bs, 780 * _bs)
     ctx.assume("a well-formed compressed NIST point and DH values 1 and p-1 are inside the accepted domain (no obligation)")
     ctx.assume("gex moduli are generated positive only: a negative modulus of legal size makes KexGex._generate_x loop forever (DESIGN.md observation O1, outside this property)")
     ctx.exclude("O1:negative-gex-modulus(never generated)")
@@ -699,7 +794,7 @@ def run(ctx):
     if done_all:
         ctx.exhaustive = True
         ctx.note("exhaustive_over", "the boundary list (%d cases: role x kex x boundary value); random values are sampled" % len(dom))
-    ctx.explore(random_cases(), lambda c: run_case(ctx, c), ctx.scale(130, 6000), shrink=False)
+    ctx.explore(random_cases(), lambda c: run_case(ctx, c), ctx.scale(120, 6000), shrink=False)
     if ctx.classes.get("gex-group:lying-server") and not ctx.classes.get("control:lying-server-in-range-group:accepted"):
         ctx.inconc("gexwire:control-never-accepted(out-of-range verdicts of the lying gex server mean nothing)")
 
